@@ -208,6 +208,14 @@ func (c *goCallable) SetContext(context reflect.Value) {
 	c.context = context
 }
 
+// forCall returns a shallow copy of a goCallable for use by a
+// single call. Per-call data (the name the function was called
+// by and the evaluation context) must be set on the copy.
+func (c *goCallable) forCall() *goCallable {
+	cp := *c
+	return &cp
+}
+
 func (c *goCallable) ParamCount() int {
 	return len(c.params)
 }
@@ -654,7 +662,16 @@ func (f *partialCallable) Call(argv []reflect.Value) (reflect.Value, error) {
 		args[i] = v
 	}
 
-	return f.fn.Call(args)
+	fn := f.fn
+	if shared, ok := fn.(*goCallable); ok {
+		// See evalFunctionCall. The context of a partially
+		// applied function is the one it was created in.
+		cp := shared.forCall()
+		cp.SetContext(f.context)
+		fn = cp
+	}
+
+	return fn.Call(args)
 }
 
 // A transformationCallable represents JSONata's object
